@@ -331,7 +331,7 @@ fn exec_step(c: &mut Ctx, st: &Step) -> Result<(), String> {
             let mvk = c.w.nodes[1].vk.clone();
             let (sig, peer) = c.w.nodes[1]
                 .run(async move {
-                    let s = mdb.sign(ch).await;
+                    let s = mdb.sign(dv::IdentityAnswer::challenge_message(&ch)).await;
                     let p = mdb.get_peer_node(mvk).await.ok().flatten();
                     (s.1, p)
                 })
